@@ -121,6 +121,9 @@ func ParseRequest(json_body []byte, qid uint64, isJaegerQuery bool, scrollTimeou
 			return nil, structs.InitDefaultQueryAggregations(), sizeLimit, nil, err
 		}
 		scrollRecord = GetScrollRecord(scroll_id, scrollTimeout[0], sizeLimit)
+		if scrollRecord == nil {
+			return nil, nil, sizeLimit, nil, errors.New("ParseRequest: Scroll Timeout : Invalid Search context")
+		}
 		scrollRecord.TimeOut = timeOut
 		//For scroll query, query body is empty , get sizelimit from scrollRecord
 		sizeLimit = scrollRecord.Size
@@ -225,6 +228,9 @@ func ParseOpenDistroRequest(json_body []byte, qid uint64, isJaegerQuery bool, sc
 			return nil, structs.InitDefaultQueryAggregations(), sizeLimit, nil, err
 		}
 		scrollRecord = GetScrollRecord(scroll_id, scrollTimeout[0], sizeLimit)
+		if scrollRecord == nil {
+			return nil, nil, sizeLimit, nil, errors.New("ParseRequest: Scroll Timeout : Invalid Search context")
+		}
 		scrollRecord.TimeOut = timeOut
 		//For scroll query, query body is empty , get sizelimit from scrollRecord
 		sizeLimit = scrollRecord.Size
